@@ -192,7 +192,9 @@ func cmdCheck(args []string) int {
 	timeout := 15 * time.Second
 	all := false
 	if *tier == "thorough" {
-		timeout = 120 * time.Second
+		// every solver runs to its own answer on every obligation (disagreements are reported);
+		// 60 s each keeps the largest property (about 2000 obligations) within about an hour
+		timeout = 60 * time.Second
 		all = true
 	}
 	ts := time.Now()
